@@ -16,7 +16,7 @@ SPEC = dict(
          "parser). The protonate-all and keep-protons round-trip clauses are metamorphic checks of the real pipeline, not theorems; "
          "hydrogens inserted at a chain start can capture the N+ tag (the theorem's hypothesis 'inside a chain' excludes exactly that).",
     technique="Lean 4 proof (induction over lines on the parser model; column-slice congruence) + differential correspondence + metamorphic runs",
-    lean=["Propka.Props.C07"],
+    lean=["Propka.Props.C07", "Propka.Props.Program"],
     rule="test files and library structures x edits: waters and other ignorable residues, junk records, input hydrogens inside residues, "
          "random serial/occupancy/B/element/charge columns, x {default, --protonate-all, -k}; non-trivial = an edit that changes the "
          "text of a structure with ionizable groups",
